@@ -133,6 +133,51 @@ def check_word(task):
     return problems
 
 
+# ------------------------------------------------------------------ sensor observers: a common rigid motion changes nothing
+SENS_KINDS = ["static", "wobble", "rotpath", "micro"]
+
+
+def mk_sensor(skind):
+    import magpylib as magpy
+
+    s = magpy.Sensor(pixel=[(0.1, 0.2, 0.3), (-0.2, 0.1, 0.0), (0.0, 0.0, 0.0)], position=(1.4, -0.8, 0.9))
+    s.rotate_from_rotvec((0.3, -0.2, 0.5), degrees=False)
+    if skind == "wobble":      # orientations -a, +a about one axis: quaternions that mirror each other
+        s.orientation = None
+        s.rotate_from_angax([-25, 25], (0.2, 1.0, -0.4), start=0)
+    elif skind == "rotpath":
+        s.move([(0.1, 0.0, 0.05), (0.2, -0.1, 0.1)])
+        s.rotate_from_rotvec([(0.2, 0.0, 0.1), (-0.1, 0.4, 0.3)], degrees=False, start=1)
+    elif skind == "micro":     # a tilt sweep of 1e-6 rad steps: still a rotating path
+        s.rotate_from_angax([0.0, 6e-5, 1.2e-4], (1.0, 0.3, 0.2), start=0)
+    return s
+
+
+def check_sensor_word(task):
+    """the sensor reports in its own frame: moving source AND sensor by the same rigid motion (through the API) must leave
+    every reading exactly where it was (anchor=None rotations are excluded: they are not a common motion of two objects)"""
+    import magpylib as magpy
+
+    kind, pathkind, skind, word = task
+    problems = []
+    for f in ("B", "H"):
+        src0, sens0 = mk(kind, pathkind), mk_sensor(skind)
+        F0 = np.asarray(getattr(magpy, "get" + f)(src0, sens0, squeeze=False))
+        src, sens = mk(kind, pathkind), mk_sensor(skind)
+        for o in (src, sens):
+            apply_word(o, word)
+        F1 = np.asarray(getattr(magpy, "get" + f)(src, sens, squeeze=False))
+        if F1.shape != F0.shape:
+            problems.append((f, f"shape changed {F0.shape} -> {F1.shape}"))
+            continue
+        sc = np.max(np.abs(F0))
+        err = np.max(np.abs(F1 - F0)) / sc
+        if not err <= RTOL:
+            m = int(np.unravel_index(np.argmax(np.abs(F1 - F0)), F0.shape)[1])
+            problems.append((f, f"sensor reading changed under a common rigid motion: rel {err:.3g} at path index {m}"))
+    return problems
+
+
 def check_pose(task):
     """definitional: pose = local frame placed in the global frame (static and along a path, several observers)"""
     kind, pi = task
@@ -189,6 +234,8 @@ def work(task):
     try:
         if task[0] == "word":
             return check_word(task[1:])
+        if task[0] == "sword":
+            return check_sensor_word(task[1:])
         return check_pose(task[1:])
     except Exception as e:
         import traceback
@@ -211,6 +258,13 @@ def run(tier, seed):
             continue
         for pi in range(12):
             tasks.append(("pose", kind, pi))
+    fixed = [g for g in GENS if not (g[0] == "rot" and g[2] == "N")]
+    swords = [w for d in range(1, (2 if tier == "quick" else 3) + 1) for w in itertools.product(fixed, repeat=d)]
+    for kind in (KINDS if tier == "thorough" else ["Cuboid", "CylinderSegment", "Polyline", "Dipole", "CollNested"]):
+        for pk in ("static", "rotating"):
+            for sk in SENS_KINDS:
+                for w in swords:
+                    tasks.append(("sword", kind, pk, sk, w))
     res = common.pmap(work, tasks)
     viols, harness = [], []
     for t, r in zip(tasks, res):
@@ -221,15 +275,22 @@ def run(tier, seed):
             if t[0] == "word":
                 gens = "+".join(sorted({g[0] + (":" + g[2] if g[0] == "rot" else "") for g in t[3]}))
                 key = f"C03|word|{t[1]}|{t[2]}|{gens}"
+            elif t[0] == "sword":
+                gens = "+".join(sorted({g[0] + (":" + g[2] if g[0] == "rot" else "") for g in t[4]}))
+                key = f"C03|sensor-word|{t[1]}|{t[2]}|sensor={t[3]}|{gens}"
+                viols.append({"key": key, "what": f"{t}: {f}: {msg}", "case": {"task": [t[0], t[1], t[2], t[3], [list(g) for g in t[4]]]},
+                              "observed": [f, msg]})
+                continue
             else:
                 key = f"C03|pose|{t[1]}|{msg.split(' of ')[0].replace(' ', '-')[:40]}"
             viols.append({"key": key, "what": f"{t}: {f}: {msg}", "case": {"task": [t[0], t[1], t[2], [list(g) for g in t[3]]] if t[0] == "word" else list(t)},
                           "observed": [f, msg]})
-    nw = sum(1 for t in tasks if t[0] == "word")
-    states = len({(t[1], t[2], t[3][:-1]) for t in tasks if t[0] == "word"})
+    nw = sum(1 for t in tasks if t[0] in ("word", "sword"))
+    states = len({(t[1], t[2], t[3][:-1]) for t in tasks if t[0] == "word"}) + len({(t[1], t[2], t[3], t[4][:-1]) for t in tasks if t[0] == "sword"})
     cov = {
         "states": states, "transitions": nw * 2, "traces_validated_against_impl": nw * 2,
-        "samples": [{"kind": t[1], "path": t[2], "word": [list(g) for g in t[3]]} for t in (tasks[7], tasks[nw // 2], tasks[nw - 1])],
+        "samples": [{"kind": t[1], "path": t[2], "word": [list(g) for g in t[3]]} for t in (tasks[7], tasks[77], tasks[777])],
+        "sensor_observer_words": sum(1 for t in tasks if t[0] == "sword"), "sensor_kinds": SENS_KINDS,
         "exhaustive": True, "depth": depth, "generators": [list(g) for g in GENS], "kinds": KINDS,
         "definitional_pose_checks": len(tasks) - nw,
         "rule": "state = (class, initial path kind, word prefix); transition = one more rigid-motion generator applied through "
@@ -241,7 +302,9 @@ def run(tier, seed):
 
 def replay(case):
     t = case["task"]
-    if t[0] == "word":
+    if t[0] == "sword":
+        r = work(("sword", t[1], t[2], t[3], tuple(tuple(g) for g in t[4])))
+    elif t[0] == "word":
         r = work(("word", t[1], t[2], tuple(tuple(g) for g in t[3])))
     else:
         r = work(tuple(t))
